@@ -187,13 +187,26 @@ def run(prop, tier, quick_slices, thorough_slices, nontrivial, drive_profile="mi
         ef = os.path.join(wd, "edges_%s.ndjson" % name)
         kept, covered = vlib.write_schedules(lines, parent, ef, limit=shares[name], rng_seed=rng.randrange(1 << 30))
         wl = graphs[name].walks(wshares[name], random.Random(rng.randrange(1 << 30)))
+        # the same schedules on the other instantiations: 32-bit packet identifiers, and role Any in the place of a
+        # fixed role (Any may do whatever Client or Server may) - judged by the trace specification like any other history
+        r2 = random.Random(rng.randrange(1 << 30))
+        pool = [l for l in open(ef)] if os.path.getsize(ef) < 400_000_000 else []
+        variants = []
+        for l in r2.sample(pool, min(len(pool), max(50, len(pool) // 8))):
+            variants.append(l.replace('"idw":16', '"idw":32'))
+        for l in r2.sample(pool, min(len(pool), max(50, len(pool) // 12))):
+            v = l.replace('"role":"client"', '"role":"any"', 1).replace('"role":"server"', '"role":"any"', 1)
+            if v != l:
+                variants.append(v)
         with open(ef, "a") as f:
             for l in wl:
                 f.write(l + "\n")
+            for l in variants:
+                f.write(l if l.endswith("\n") else l + "\n")
         states += mcs[name]["distinct"]
         transitions += total
         per_slice[name] = {"states": mcs[name]["distinct"], "transitions": total, "replayed": covered, "schedules": kept,
-                           "maximal_schedules": len(lines), "graph_walks": len(wl)}
+                           "maximal_schedules": len(lines), "graph_walks": len(wl), "u32_and_any_role_variants": len(variants)}
         edge_files.append(ef)
     del extracted, graphs
 
@@ -201,7 +214,11 @@ def run(prop, tier, quick_slices, thorough_slices, nontrivial, drive_profile="mi
     # every TLC worker deserialises the whole trie it walks, so several small tries are cheaper than one big one
     drive_n = "400" if thorough else "40"
     twin = ["--checked"] if prop == "C11" else []      # C11: a twin object driven through checked_send runs alongside
-    parts = [(os.path.basename(ef)[6:-7], twin + ["--edges", ef]) for ef in edge_files]
+    parts = []
+    for ef in edge_files:
+        pieces = vlib.split_schedules(ef)
+        for k, q in enumerate(pieces):
+            parts.append((os.path.basename(ef)[6:-7] + ("" if len(pieces) == 1 else ".%d" % k), twin + ["--edges", q]))
     parts.append(("random", twin + (["--probe"] if prop == "C11" else []) +
                   ["--drive", drive_n, "--seed", str(vlib.seed()), "--steps", "120" if thorough else "60", "--profile", drive_profile]))
     t_mc = time.time() - t0
@@ -218,36 +235,41 @@ def run(prop, tier, quick_slices, thorough_slices, nontrivial, drive_profile="mi
         pnodes = vlib.load_trie(ptrie)
         if not os.environ.get("VERIF_KEEP"):
             os.remove(ptrie)
-        return pname, phs, pviols, pdrifts, pnodes
+        # everything that is needed from the nodes is computed here, so that the nodes can be dropped (thorough runs
+        # have hundreds of thousands of them)
+        g = group(prop, pnodes, pviols)
+        mk = make_replay_fn(pnodes)
+        for sig in g:
+            g[sig]["example"] = mk(g[sig]["example"])
+        nt = [n["id"] for n in pnodes[1:] if nontrivial(n)]
+        leaves = [n["id"] for n in pnodes if not n["kids"] and n["id"] != 0]
+        sample = brief_path(pnodes, nt[len(nt) // 2] if nt else leaves[0]) if (nt or leaves) else None
+        return pname, phs, pviols, pdrifts, g, len(nt), len(leaves), len(pnodes), sample
 
     from concurrent.futures import ThreadPoolExecutor
     with ThreadPoolExecutor(max_workers=4 if thorough else 8) as ex:
         results = list(ex.map(do_part, parts))
     vlib.log("[time] build+model-check %.0fs, harness+judge %.0fs" % (t_mc, time.time() - t0 - t_mc))
-    groups, viols, drifts, part_nodes = {}, [], [], {}
+    groups, viols, drifts = {}, [], []
     hs = {"calls": 0, "panics": 0, "inapplicable": 0, "ops": {}}
     nt_n = leaves_n = trie_n = 0
     samples = []
-    for pname, phs, pviols, pdrifts, pnodes in results:
-        part_nodes[pname] = pnodes
-        for sig, g in group(prop, pnodes, pviols).items():
-            g["example"] = (pname, g["example"])
+    for pname, phs, pviols, pdrifts, g, n_nt, n_leaves, n_nodes, sample in results:
+        for sig, gg in g.items():
             if sig in groups:
-                groups[sig]["count"] += g["count"]
+                groups[sig]["count"] += gg["count"]
             else:
-                groups[sig] = g
+                groups[sig] = gg
         viols += pviols
         drifts += pdrifts
         for k in ("calls", "panics", "inapplicable"):
             hs[k] += phs.get(k, 0)
         for k, v in phs.get("ops", {}).items():
             hs["ops"][k] = hs["ops"].get(k, 0) + v
-        nt = [n["id"] for n in pnodes[1:] if nontrivial(n)]
-        leaves = [n["id"] for n in pnodes if not n["kids"] and n["id"] != 0]
-        nt_n += len(nt); leaves_n += len(leaves); trie_n += len(pnodes)
-        if len(samples) < 3 and (nt or leaves):
-            samples.append(brief_path(pnodes, nt[len(nt) // 2] if nt else leaves[0]))
-    code, nv, nk = vlib.verdict(prop, groups, lambda ex_: make_replay_fn(part_nodes[ex_[0]])(ex_[1]))
+        nt_n += n_nt; leaves_n += n_leaves; trie_n += n_nodes
+        if len(samples) < 3 and sample:
+            samples.append(sample)
+    code, nv, nk = vlib.verdict(prop, groups, lambda ex_: ex_)
     # drift: report, never a verdict
     dfields = {}
     for nid, fields in drifts:
